@@ -222,7 +222,11 @@ class EngineBase:
 
     def older(self, st: St, term):
         """fact: any ref read out of the heap was allocated before now"""
-        return z3.Implies(is_ref(term), r_of(term) < st.A)
+        r = r_of(term)
+        c = z3.Select(st.CL, r)
+        low = AND(r >= 1, z3.Implies(r < I(self.index.first_free_id),
+                                     OR(c == I(self.cls('type').id), c == I(self.cls('function').id))))
+        return z3.Implies(is_ref(term), AND(r < st.A, low))
 
     def dict_has(self, st, r, k):
         return z3.Select(z3.Select(st.DH, r), k)
